@@ -534,8 +534,8 @@ func profileC05() qProfile {
 	w["nackb"] = 4
 	w["adv"] = 14
 	w["enq"] = 12
-	return qProfile{name: "C05", backends: []string{"memory", "sqlite"}, depths: []int{0, 0, 0, 5},
-		drops: []string{"reject"}, retention: false, maxOps: 40, weights: w,
+	return qProfile{name: "C05", backends: []string{"memory", "sqlite"}, depths: []int{0, 0, 0, 5, 2, 3},
+		drops: []string{"reject", "reject", "drop_oldest"}, retention: false, maxOps: 40, weights: w,
 		padSingle: true, explicitTS: 10, blankIDs: true, deliveredOK: true, motifs: motifsReady, extreme: true}
 }
 
